@@ -143,3 +143,49 @@ Proof.
   exact (threads_recv_sequence _ (copy_machine_progress _ bufsize Hb) _ _
            (fx_consumer_ok size dec bufsize Hs Hb) _ (fx_R_init size dec bufsize Hs Hb) o na nb sch j r H).
 Qed.
+
+(* ---- buffer-filling receiver x fixed-size framing: no hypothesis on the stream *)
+From EN Require Import Proofs.C03_buffixed.
+
+Section BFX.
+  Context {P : Type}.
+  Variable size : nat.
+  Variable dec : decoder P.
+  Variable sizehint : nat.
+  Hypothesis size_pos : 1 <= size.
+  Variable mode : emode.
+
+  Let M := buf_machine (bfx_framer size dec) sizehint.
+  Let c0 := bcinit (bfx_framer size dec).
+  Let OK := bfx_consumer_ok_rel size dec sizehint size_pos.
+  Let R0 := bfx_R_init size dec sizehint size_pos.
+
+  Lemma bfx_recv_sequence : forall o ts j r,
+      nth_error (delivered (results (run_calls M mode (linit c0) o ts))) j = Some r ->
+      r = expected (fst (fx_events size dec (stream_of o))) j.
+  Proof. intros o ts j r. exact (recv_sequence_rel M mode _ _ _ _ OK c0 R0 o ts j r I). Qed.
+
+  Lemma bfx_no_partial : forall o ts s1 tail,
+      stream_of o = s1 ++ tail -> snd (fx_events size dec s1) = [] -> length tail < size ->
+      forall j r, nth_error (delivered (results (run_calls M mode (linit c0) o ts))) j = Some r ->
+                  length (fst (fx_events size dec s1)) <= j -> r = RecvAborted.
+  Proof.
+    intros o ts s1 tail Hs H1 H2.
+    refine (no_partial_delivery_rel M mode _ _ _ _ OK c0 R0 o ts s1 tail I Hs _).
+    unfold bfx_spec. rewrite (fx_whole_app size dec size_pos s1 tail H1). cbn [fst].
+    rewrite (Fixed_proofs.fx_short size dec size_pos tail H2). cbn [fst]. apply app_nil_r.
+  Qed.
+
+  Lemma bfx_eof_sticky : forall o ts1 rs1 st1 o1,
+      run_calls M mode (linit c0) o ts1 = (rs1, st1, o1) ->
+      forall t st2 o2 el, receive M mode t st1 o1 = (st2, o2, RecvAborted, el) ->
+      forall ts' o', exists st3, run_calls M mode st2 o' ts' = (map (fun _ => (RecvAborted, o')) ts', st3, o').
+  Proof. intros o ts1 rs1 st1 o1. exact (eof_sticky_rel M mode _ _ _ _ OK c0 R0 o ts1 rs1 st1 o1 I). Qed.
+
+  Lemma bfx_timeout_loses_nothing : forall o ts,
+      let evs := fst (fx_events size dec (stream_of o)) in
+      firstn (S (length evs))
+             (delivered (results (run_calls M mode (linit c0) o (ts ++ repeat None (S (length evs) + raises o)))))
+      = map of_nres evs ++ [RecvAborted].
+  Proof. intros o ts. exact (timeout_loses_nothing_rel M mode _ _ _ _ OK c0 R0 o ts I). Qed.
+End BFX.
